@@ -20,6 +20,10 @@ CHECKS = {
    text="check_compiler_version executed symbolically from MIR for every version triple (accepted iff major equal and (minor,patch) <= supported, otherwise an error-level report; no pragma => one warning), plus the C03 main/writer harness specialised to error-level reports: every error offered to the writer is displayed at every --level unless allowed, and then the exit status is non-zero; 'No issues found.' only when nothing was displayed.",
    note=TB + "Partial: that the parser/desugarer/lifter actually produce a report for each failure class is outside this check (needs the pipeline); file-system errors are represented by a location-less error report offered to the writer.",
    ref="DESIGN.md §3 C02"),
+ 'C17': dict(
+   text="Partial: the real AnalysisRunner (analyze_*, cache_*, take_*, replace_*, report caches, name listing) executed symbolically from MIR with stubbed CFG generation, passes and writer, for every order in which definitions are stored/analysed and every look-up pattern: on each order the written multiset equals one order-independent oracle (each finding of a user-file definition exactly once), so the displayed multiset does not depend on definition order or on which definition looked which other up first.",
+   note=TB + "Outside: hash-map iteration orders inside the analysis passes, SSA version naming across runs, order of files on the command line, effects of unrelated extra definitions beyond the bound (2/3 definitions).",
+   ref="DESIGN.md §3 C17"),
  'C15': dict(
    text="Symbolic execution of the MIR of DominatorTree::new / compute_dominators / compute_immediate_dominators / compute_dominance_frontier with the generic node type bound to a harness node whose predecessor set is a symbolic subset of the nodes: for every rooted digraph within the node bound (quick <=4, thorough <=5 nodes; self loops and irreducible graphs included) the dominator sets, immediate dominators, dominator-tree children and dominance frontiers equal their path definitions and the three internal assertions are unreachable.",
    note=TB + "HashSet<usize> is modelled as a bit set whose iteration order is ascending (order sensitivity is C17's subject). Graphs with more nodes are outside the claim.",
